@@ -365,6 +365,77 @@ func rRef(a, b string) int {
 	return sign(len(as) - len(bs))
 }
 
+// ---- Gem::Version (rubygems/version.rb: segments, canonical_segments, <=>) ----
+
+func gemSegments(s string) []string {
+	var segs []string
+	for i := 0; i < len(s); {
+		j := i
+		switch {
+		case isDigit(s[i]):
+			for j < len(s) && isDigit(s[j]) {
+				j++
+			}
+		case isAlpha(s[i]):
+			for j < len(s) && isAlpha(s[j]) {
+				j++
+			}
+		default:
+			i++
+			continue
+		}
+		segs = append(segs, s[i:j])
+		i = j
+	}
+	// canonical_segments: trailing zeros are dropped from the numeric head and from the rest
+	k := len(segs)
+	for i, x := range segs {
+		if !allDigits(x) {
+			k = i
+			break
+		}
+	}
+	dropZeros := func(xs []string) []string {
+		for len(xs) > 0 && allDigits(xs[len(xs)-1]) && cmpNum(xs[len(xs)-1], "0") == 0 {
+			xs = xs[:len(xs)-1]
+		}
+		return xs
+	}
+	head, tail := dropZeros(append([]string(nil), segs[:k]...)), dropZeros(append([]string(nil), segs[k:]...))
+	return append(head, tail...)
+}
+
+// gemRef: numbers compare by value, strings bytewise (String#<=>, so "RC" < "rc"), a
+// string sorts before a number, a missing segment is 0.
+func gemRef(a, b string) int {
+	x, y := gemSegments(a), gemSegments(b)
+	for i := 0; i < len(x) || i < len(y); i++ {
+		p, q := "0", "0"
+		if i < len(x) {
+			p = x[i]
+		}
+		if i < len(y) {
+			q = y[i]
+		}
+		pd, qd := allDigits(p), allDigits(q)
+		switch {
+		case pd && qd:
+			if c := cmpNum(p, q); c != 0 {
+				return c
+			}
+		case pd:
+			return 1
+		case qd:
+			return -1
+		default:
+			if c := strings.Compare(p, q); c != 0 {
+				return c
+			}
+		}
+	}
+	return 0
+}
+
 // ---- PHP version_compare (php.net/version_compare), used by Composer/Packagist ----
 
 func phpCanon(s string) []string {
@@ -474,8 +545,9 @@ func (v pepVer) preKey() (int, string) {
 	return map[string]int{"a": 1, "b": 2, "rc": 3}[v.preL], v.preN
 }
 
+// PEP 440: "all ascii letters should be interpreted case insensitively".
 func pep440Ref(a, b string) int {
-	x, y := pepParse(a), pepParse(b)
+	x, y := pepParse(strings.ToLower(a)), pepParse(strings.ToLower(b))
 	if c := cmpNum(x.epoch, y.epoch); c != 0 {
 		return c
 	}
@@ -589,6 +661,14 @@ func depsdevRef(eco, a, b string) (int, bool) {
 			return 0, false
 		}
 	}
+	if eco == "RubyGems" && (a != strings.ToLower(a) || b != strings.ToLower(b)) {
+		// deps.dev lower-cases gem versions; Gem::Version compares string segments bytewise
+		return 0, false
+	}
+	if eco == "PyPI" && (a != strings.ToLower(a) || b != strings.ToLower(b)) {
+		// deps.dev's PEP 440 parser only knows the lower-case spellings
+		return 0, false
+	}
 	if eco == "PyPI" {
 		// deps.dev ranks PEP 440 suffix combinations approximately (local versions are only
 		// compared for some ranks, a missing post segment equals .post0): it is only
@@ -629,6 +709,8 @@ func References(eco, a, b string) []RefResult {
 		out = append(out, RefResult{"PHP version_compare", phpRef(a, b)})
 	case "pypi":
 		out = append(out, RefResult{"PEP 440 ordering", pep440Ref(a, b)})
+	case "rubygems":
+		out = append(out, RefResult{"Gem::Version <=>", gemRef(a, b)})
 	}
 	if c, ok := depsdevRef(eco, a, b); ok {
 		out = append(out, RefResult{"deps.dev/util/semver", c})
